@@ -932,6 +932,45 @@ func (m *Model) ruleREGISTRY(r *Results) {
 					}
 				}
 			}
+			if !fromRegistry {
+				// a local that is either the lookup's result or the value just stored under the same map
+				okAll, n := true, 0
+				var alts []ssa.Value
+				if phi, ok := recvV.(*ssa.Phi); ok {
+					alts = phi.Edges
+				}
+				for _, alt := range alts {
+					n++
+					av := stripConv(alt)
+					isLookup := false
+					if ex, ok := av.(*ssa.Extract); ok {
+						av = ex.Tuple
+					}
+					if lk, ok := av.(*ssa.Lookup); ok {
+						if ld, ok := lk.X.(*ssa.UnOp); ok {
+							if fa, ok := ld.X.(*ssa.FieldAddr); ok && fieldOf(fa) == bucketMap {
+								isLookup = true
+							}
+						}
+					}
+					stored := false
+					for _, b := range fn.Blocks {
+						for _, ins := range b.Instrs {
+							if mu, ok := ins.(*ssa.MapUpdate); ok && stripConv(mu.Value) == stripConv(alt) {
+								if ld, ok := mu.Map.(*ssa.UnOp); ok {
+									if fa, ok := ld.X.(*ssa.FieldAddr); ok && fieldOf(fa) == bucketMap {
+										stored = true
+									}
+								}
+							}
+						}
+					}
+					if !isLookup && !stored {
+						okAll = false
+					}
+				}
+				fromRegistry = okAll && n > 0
+			}
 			r.check(fromRegistry, rule, name+" / handle is a copy of the registered bucket", m.instrPos(c), "the handle handed out copies the bucket found in the registry", "the handle handed out is a copy of something other than the registered bucket (e.g. the caller's freshly opened one): handles opened concurrently on one name then use different databases, mutexes and feed registries")
 			counted := false
 			for _, inc := range incs {
@@ -1013,8 +1052,9 @@ func (m *Model) ruleREGISTRY(r *Results) {
 			if cd.Op != token.ILLEGAL {
 				continue
 			}
-			if m.derivesFromField(cd.X, a.ClosedField.Name(), 0, map[ssa.Value]bool{}) {
-				c.cutEdge(iff.Block(), cd.succWhen(false))
+			if ok, neg := m.derivesWithParity(cd.X, a.ClosedField.Name(), 0, map[ssa.Value]bool{}); ok {
+				// cut the edge on which the handle was still open: the release must then be unreachable
+				c.cutEdge(iff.Block(), cd.succWhen(neg))
 				found = true
 			}
 		}
